@@ -1,7 +1,7 @@
 /-
   UnytModel.Ops.C01 — opcodes of the C01 model (prefix `c01.`).
 
-  c01.dispatch  <ufunc> <method> <nin> <operand>… <out> <axisLen|-> <kernelErr|->
+  c01.dispatch  <ufunc> <method> <nin> <operand>… <out> <axisLen|-> <kernelErr|-> <kernelShape d,d,…> <eq|ne|->
       operand :=  U <a|q> <unit> <data> | B <data> | S <n> (<-> | u <unit>)… <data>
       unit    :=  <scale bits> <offset bits> <dim> <coeff bits> <factors> <repr>
       data    :=  <shape d,d,…> <allZero 0|1> <kind f|i|u|c|b|o> <itemsize> <constant 0|1> <first p/q>
@@ -164,12 +164,17 @@ def stepC01 (st : DriverState) (fields : List String) : Option String :=
     let (ins, rest) ← pOperands nin rest
     let (out, rest) ← pOut rest
     match rest with
-    | [ax, ke] =>
+    | [ax, ke, ksh, wrap] =>
       let ax : Option (Option Nat) := if ax == "-" then some none else ax.toNat?.map some
       let ax ← ax
       let ke ← pErr ke
-      let c : Call Float := { ufunc := f, method := m, inputs := ins, out := out, axisLen := ax, kernelErr := ke }
-      some (runStr (dispatch C c))
+      let ksh ← pShape ksh
+      let c : Call Float := { ufunc := f, method := m, inputs := ins, out := out, axisLen := ax, kernelErr := ke,
+                              kernelShape := ksh }
+      let r := dispatch C c
+      if wrap == "eq" then some (runStr (eqNeOperator false r))
+      else if wrap == "ne" then some (runStr (eqNeOperator true r))
+      else if wrap == "-" then some (runStr r) else none
     | _ => none
   | "c01.coerce" :: rest => do
     let (o, _) ← pOperand rest
